@@ -752,6 +752,35 @@ impl Driver {
         self.history.iter().filter_map(|e| if let Ev::Schedule { pol, party } = e { Some((*pol, *party)) } else { None }).collect()
     }
 
+    /// Observation only (after the snapshot, not part of the history): which state is every live
+    /// actor in?  An empty consts request from party usize::MAX changes nothing where it is accepted.
+    pub async fn probe_states(&mut self) -> Vec<(u8, u8, String)> {
+        let mut out = vec![];
+        let mut handles = vec![];
+        for (p, pr) in self.w.procs.iter().enumerate() {
+            for (id, h) in pr.handles.lock().unwrap().iter() {
+                handles.push((self.w.hub.pol_of(id), p as u8, *id, h.clone()));
+            }
+        }
+        for (pol, p, id, h) in handles {
+            let fut = h.consts(ConstsRequest { from: usize::MAX, computation_id: id, consts: Default::default() });
+            let r = tokio::time::timeout(Duration::from_millis(5), fut).await;
+            let name = match r {
+                Err(_) => "Busy".to_string(),
+                Ok(Ok(())) => "Validated|SendingConsts|SendingConstsCompleted".to_string(),
+                Ok(Err(e)) => {
+                    let t = format!("{e:?}");
+                    match t.find("state: \"") {
+                        Some(i) => t[i + 8..].split('"').next().unwrap_or("?").to_string(),
+                        None => t.chars().take(30).collect(),
+                    }
+                }
+            };
+            out.push((pol, p, name));
+        }
+        out
+    }
+
     /// Ends the execution: fails every outstanding RPC so that no task stays parked.
     pub async fn shutdown(&mut self) {
         {
@@ -796,6 +825,9 @@ pub struct Snapshot {
     pub actors: Vec<(u8, u8, u64, Option<u64>)>,
     /// (pol, party, seq of the first and of the last MPC-message activity involving the party)
     pub msg_spans: Vec<(u8, u8, u64, u64)>,
+    /// state names observed by probing every live actor with an empty consts request from an
+    /// unknown party (answered with InvalidState { state } outside the three consts-accepting states)
+    pub state_kinds: Vec<(u8, u8, String)>,
 }
 
 impl Driver {
@@ -823,6 +855,7 @@ impl Driver {
             seq: h.seq,
             canonical: canonical(&self.effective, self.w.n()),
             actors: h.actors.clone(),
+            state_kinds: vec![],
             msg_spans: {
                 let mut m: HashMap<(u8, u8), (u64, u64)> = HashMap::new();
                 for r in h.rpcs.iter().filter(|r| r.key.kind == Kind::Msg) {
@@ -880,7 +913,8 @@ pub fn run_history(
                     d.apply(ev).await?;
                 }
                 let _ = finish;
-                let snap = d.snapshot();
+                let mut snap = d.snapshot();
+                snap.state_kinds = d.probe_states().await;
                 d.shutdown().await;
                 Ok::<_, String>(snap)
             });
